@@ -153,7 +153,7 @@ prop('C02',
 
 prop('C10',
      modules=['WitnessVerif.Props.C10'],
-     scenarios=lambda tier: [sc('bastion', n=30 if tier == 'quick' else 300)] * (4 if tier == 'quick' else 10) + [sc('bastione2e')],
+     scenarios=lambda tier: [sc('bastion', n=30 if tier == 'quick' else 300)] * (4 if tier == 'quick' else 10) + [sc('bastione2e'), sc('binary')],
      diverge={'H': {'status', 'ctype', 'rbody', 'post', 'oracle'}},
      nontrivial_line=lambda k, line: k == 'H',
      rule='requests through the real addHandler (built as FeedBastion builds it, real witness + real witnessAdapter behind it, in-memory and SQLite) in states reached by earlier requests through the same endpoint: honest growth/refresh (200), stale (409 + size), old size above checkpoint (400), same size other root (409), bad proof (422), bad signature (403), unknown origin (404), ten malformed variants (400), arbitrary mutations, limiter 0/s and 3/s (429); the same request classes end to end: a stub bastion accepts the reverse TLS 1.3 / ALPN bastion/0 connection dialled by the exported FeedBastion and sends the requests over HTTP/2 (with and without declared length), plus honest requests sized just below, at and above the 16 KiB body cap; status, content type, body and witness state compared with the model; independent ed25519 verification of the returned cosignature lines',
@@ -194,7 +194,7 @@ prop('C05',
 
 prop('C04',
      modules=['WitnessVerif.Props.C04'],
-     scenarios=lambda tier: hist_scenarios(tier, exh_q=2, exh_t=4) + [sc('fault'), sc('httpapi')],
+     scenarios=lambda tier: hist_scenarios(tier, exh_q=2, exh_t=4) + [sc('fault'), sc('httpapi'), sc('binary')],
      diverge={'U': {'accept', 'ret', 'post', 'oracle'}, 'A': {'get'}},
      nontrivial=lambda u: u.get('err') == 'none',
      rule='every accepted Update of the history scenarios (first use, growth, same-size refresh; extension lines, extra known/unknown signature lines, stale and forged lines in the witness name, padding up to the 100-line limit; witness key sets of 1-3 legacy Ed25519 / cosignature-v1 keys; in-memory, SQLite :memory:, SQLite file): returned bytes compared byte-for-byte with the model (signature bytes taken from the real signers), independently verified (plain ed25519 over the reconstructed cosignature/v1 message), timestamp within the call window, read-after-update; non-trivial = accepted update',
@@ -259,7 +259,7 @@ prop('C18',
 
 prop('C06',
      modules=['WitnessVerif.Props.C06'],
-     scenarios=lambda tier: [sc('crash')] + ([sc('crash')] if tier == 'thorough' else []) + [sc('fault')],
+     scenarios=lambda tier: [sc('crash')] + ([sc('crash')] if tier == 'thorough' else []) + [sc('fault'), sc('binary')],
      diverge={'CR': None, 'U': {'accept', 'post', 'calls'}},
      nontrivial_line=lambda k, line: k == 'CR' and 'killed=1' in line,
      rule='for first-use, growth and refresh updates on a file-backed SQLite store opened through a wrapping database/sql driver (production pool size), a child process SIGKILLs itself at every driver-event boundary (entry and completion of begin, query, rows.Next, exec, commit; plus one run to completion); acknowledgements are flushed to a pipe before anything else; a fresh process reopens the file and reports every log\'s checkpoint (verified under log and witness keys) and the log list; compared with the model\'s prediction for that kill point; non-trivial = the process was killed',
